@@ -21,3 +21,20 @@ add("C03",
     "is decided by z3 against a quantile-rule reference; counterexamples are replayed concretely before being reported",
     "symbolic execution of the real Python code (CrossHair engine as library, z3), exhaustive path enumeration within bounds, reference-model oracle",
     "DESIGN.md 4 C03")
+
+add("C13",
+    "bounded model checking of failure containment: failures injected at every point (before the first report, between reports, after a resume) of every "
+    "schedule of <=3 trials / <=2 failures on the real HyperbandScheduler (stopping, promotion) with random and GP multi-fidelity searchers; the solver enumerates "
+    "all metric-dependent decisions; state diff of pending evaluations / rung entries restricted to the failed trial",
+    "symbolic execution of the real scheduler code (CrossHair engine + z3), exhaustive schedules x fault placement within bounds, state-diff oracle",
+    "DESIGN.md 4 C13")
+add("C14",
+    "bounded model checking of the surrogate data set after every event: observed (trial, level) set and values vs the data-policy reference, pending entries only for running "
+    "trials at unobserved levels; all metric valuations, report orders, pause/resume/failure placements for <=3 trials, 3 data policies, myopic on/off, checkpointing on/off",
+    "symbolic execution of the real scheduler + searcher bookkeeping code (CrossHair engine + z3), invariant checked after every event on every path",
+    "DESIGN.md 4 C14")
+add("C19",
+    "bounded model checking: Pareto filter and non-dominated sort vs brute-force dominance over a symbolic N x D matrix (N=3, D<=3; ties reachable), MOASHA decisions vs the rank rule "
+    "with 4 entries at a rung (quick: 3 concrete earlier entries from an order-type table + symbolic newcomer; thorough: all symbolic)",
+    "symbolic execution of the real numpy-based code through a symbolic-matrix carrier (every element comparison is a z3 fork), brute-force dominance oracle",
+    "DESIGN.md 4 C19")
